@@ -1,7 +1,7 @@
 #!/bin/sh
-# tools/process_seed.sh <dir> <PROP>: confirm a delivered seed in a scratch worktree, then run the property's check against it
+# tools/process_seed.sh <dir> <PROP>: confirm a delivered seed in a scratch worktree, then run the property's check against a
+# scratch copy with it applied (/repo is never touched, so several can run at once)
 D="$1"; P="$2"
 echo "== $D ($P)"; git -C /repo apply --stat "$D/patch.diff" | tail -3
 sh /verif/tools/confirm_seed.sh "$D" 2>&1 | grep -v conda
-sh /verif/tools/try_seed.sh "$D/patch.diff" "$P" 2>&1 | grep -v conda | grep -v "no longer generated" | cut -c1-700 | tail -6
-git -C /repo status --short
+sh /verif/tools/try_seed_copy.sh "$D/patch.diff" "$P" 2>&1 | grep -v conda | grep -v "no longer generated" | cut -c1-700 | tail -6
